@@ -8,6 +8,8 @@ import (
 type ParserData struct {
 	code      []ByteCode
 	codeIndex int
+	// 指令数超过上限(8192)后写入的指令会被丢弃；置位后 Parse 返回错误，而不是执行被截断的程序
+	codeOverflow bool
 
 	Config        RollConfig
 	flagsStack    []RollConfig
@@ -90,7 +92,7 @@ func (e *ParserData) checkStackOverflow() bool {
 			copy(newCode, e.code)
 			e.code = newCode
 		} else {
-			// e.Error = errors.New("E1:指令虚拟机栈溢出，请不要发送过长的指令")
+			e.codeOverflow = true
 			return true
 		}
 	}
